@@ -2,13 +2,17 @@
 
 package bkl
 
-import "errors"
+import (
+	"errors"
+	"unicode"
+)
 
 func init() {
 	vRegister("HarnessC07_clean", HarnessC07_clean)
 	vRegister("HarnessC07_required", HarnessC07_required)
 	vRegister("HarnessC07_hidden", HarnessC07_hidden)
 	vRegister("HarnessC07_encode", HarnessC07_encode)
+	vRegister("HarnessC07_latin1", HarnessC07_latin1)
 }
 
 // c07Marker: s is an unresolved marker: $required, or "$" followed by a
@@ -206,4 +210,43 @@ func HarnessC07_encode() {
 	_, err := c06Eval(vCopy(tree))
 	vAssert("C07.encode.refused", err != nil)
 	vCover("encode.checked")
+}
+
+// HarnessC07_latin1: the character after "$" is a two-byte UTF-8 letter
+// (Latin-1 supplement): "$" + lower-case letter (é, ß, µ ...) is a marker and
+// must be rejected, "$" + upper-case or non-letter (É, ×, ÷ ...) is plain data
+// and must pass through. Every two-byte sequence C2/C3 xx is covered; the
+// expectation decodes the rune independently of bkl.
+func HarnessC07_latin1() {
+	lead := byte(0xc2 + ndChoice(2))
+	cont := ndStrN(1, "any")
+	vAssume(vAnd(cont[0] >= 0x80, cont[0] <= 0xbf))
+	tail := ""
+	if ndChoice(2) == 1 {
+		tail = "x"
+	}
+	s := "$" + string([]byte{lead}) + cont + tail
+	r := rune(lead&0x1f)<<6 | rune(cont[0]&0x3f)
+	lower := unicode.IsLower(r)
+	pos := ndChoice(3)
+	var doc map[string]any
+	switch pos {
+	case 0:
+		doc = map[string]any{"v": s}
+	case 1:
+		doc = map[string]any{s: 1}
+	default:
+		doc = map[string]any{"l": []any{s}}
+	}
+	vObserve("s", s)
+	outs, err := c06Eval(vCopy(doc))
+	vObserve("err", err != nil)
+	if lower {
+		vCover("latin1.lower")
+		vAssert("C07.latin1.rejected", err != nil)
+		return
+	}
+	vCover("latin1.other")
+	vAssert("C07.latin1.accepted", err == nil)
+	vAssert("C07.latin1.same", vEq(outs[0], doc))
 }
